@@ -157,7 +157,8 @@ def check_file_calls(run, cases, per_file_budget, rng, with_extra=True):
     from seismic_zfp.read import SgzReader
     calls, extras = [], []
     for fi, fc in enumerate(cases):
-        for op, a in readcalls.in_range_calls(fc.F, rng, per_file_budget):
+        big = max(fc.F['n']) > 1000 or fc.F['n'][0] * fc.F['n'][1] > 3000        # long selections are slow to evaluate in TLC: fewer of them
+        for op, a in readcalls.in_range_calls(fc.F, rng, min(per_file_budget, 150) if big else per_file_budget):
             calls.append((fi, op, a))
         if with_extra:
             for item in extra_paths(run, fc, rng, max(4, per_file_budget // 20)):
